@@ -397,6 +397,65 @@ def c10(run):
                        distinct_nontrivial=st.get("obs", 0) - st.get("keys", 0))
 
 
+def write_vocab(run, binary):
+    """Vocab.tla: the PromQL vocabulary of the pinned parser, generated at check time."""
+    import subprocess
+    p = subprocess.run([binary, "vocab"], capture_output=True, text=True, env=vlib.GOENV)
+    if p.returncode != 0:
+        raise Infra("vreplay vocab failed: " + p.stderr)
+    v = json.loads(p.stdout)
+
+    def seq(xs):
+        return "<<" + ", ".join(xs) + ">>"
+    fns = []
+    for f in v["functions"]:
+        args = list(f["args"] or [])
+        fns.append('[name |-> "%s", args |-> %s, variadic |-> %d, ret |-> "%s"]' % (f["name"], seq('"%s"' % a for a in args), f["variadic"], f["ret"]))
+    txt = ("---- MODULE Vocab ----\nEXTENDS Integers\nFunctions == %s\nAggregators == %s\nOperators == %s\n====\n"
+           % (seq(fns), seq('"%s"' % a for a in v["aggregators"]), seq('"%s"' % o for o in v["operators"])))
+    with open(run.path("Vocab.tla"), "w") as f:
+        f.write(txt)
+    return v
+
+
+def mc_fallback(run):
+    cfg = ("SPECIFICATION Spec\nCONSTANTS\n Queries = {\"q1\", \"q2\", \"q3\", \"q4\"}\n Valid <- MCValid\n Native <- MCNative\nINVARIANTS F1 F2 F3 F4\n")
+    with open(run.path("MCFallback.tla"), "w") as f:
+        f.write('---- MODULE MCFallback ----\nEXTENDS Fallback\nMCValid == [q \\in Queries |-> q # "q4"]\nMCNative == [q \\in Queries |-> q \\in {"q1", "q4"}]\n====\n')
+    ok, out, st = vlib.model_check(run, "MCFallback", cfg, "fallback", timeout=600)
+    if not ok:
+        raise Infra("Fallback.tla violates its own clauses:\n" + out[-2000:])
+
+
+def c08(run):
+    binary = vlib.build()
+    quick = run.tier == "quick"
+    v = write_vocab(run, binary)
+    mc_fallback(run)
+    scs = vlib.generate(run, "Gen_Fallback", gen_cfg(run.tier, run.seed, 1, ["EmitFb"]), "fb", fam="C08", timeout=1500)
+    log("vocabulary: %d functions, %d aggregators, %d operators; %d query texts" % (len(v["functions"]), len(v["aggregators"]), len(v["operators"]), len(scs)))
+    chunks = max(1, min(vlib.NCPU // 2, len(scs) // 200))
+    traces = vlib.replay(run, binary, "fallback", scs, "fb", chunks=chunks)
+    viols, stats = vlib.validate(run, "FallbackTrace", traces, "fb")
+    st = sum_stats(stats)
+    hdr = headers_of(traces, {x[0] for x in viols})
+    attribute(run, viols, hdr, lambda clause, fam: ["C08"] if clause in ("F1", "F2", "F3", "F4") else (["C13", "C08"] if clause == "ProcessDead" else []))
+    run.cov["traces_validated_against_impl"] = st.get("sc", 0)
+    run.cov["samples"] = [{"query": s.get("q")} for s in scs[:5]]
+    run.cov["fallback_stats"] = st
+    if st.get("native", 0) == 0 or st.get("fallback", 0) == 0 or st.get("rejected", 0) == 0:
+        raise Infra("vacuous run: a path was never taken: %s" % st)
+    return vlib.finish(run, "model_checking",
+                       rule=("Fallback.tla (creation outcome as a function of the expression and the fallback switch; counters) model-checked. "
+                             "Gen_Fallback.tla enumerates the complete vocabulary emitted from the pinned parser at check time (every function of "
+                             "parser.Functions with type-correct arguments, every aggregation operator, every binary/set operator with "
+                             "modifiers, subqueries, string literals, range vectors, @/offset) in the tier's syntactic positions x instant/range; "
+                             "every text is created with fallback on and off, executed, and compared with the reference engine; TLC validates "
+                             "clauses F1-F4 of FallbackTrace.tla. distinct_nontrivial = valid query texts."),
+                       assumptions=["path taken = dynamic type of the returned query object", "counter read from Opts.Reg"],
+                       distinct_nontrivial=st.get("valid", 0))
+
+
 def c07(run):
     binary = vlib.build()
     mc_volcano(run)
@@ -420,4 +479,4 @@ def c07(run):
                        distinct_nontrivial=st.get("obs", 0) - st.get("keys", 0))
 
 
-RECIPES = {"C01": c01, "C07": c07, "C09": c09, "C10": c10, "C16": c16, "C18": c18, "C19": c19, "C02": c02, "C03": c03, "C04": c04, "C05": c05, "C06": c06}
+RECIPES = {"C01": c01, "C07": c07, "C08": c08, "C09": c09, "C10": c10, "C16": c16, "C18": c18, "C19": c19, "C02": c02, "C03": c03, "C04": c04, "C05": c05, "C06": c06}
